@@ -137,14 +137,22 @@ def _exec_history(case):
     if isinstance(fy, Raised) or not bool(torch.isfinite(fy).all()):
         out.discard = True
         return out
+    opt_kw = {}
+    if case["seed"] % 5 == 0:
+        # a user-supplied range optimizer (documented argument): freezing must store what the dynamic path computed with it
+        opt_kw = {"optimizer": M.custom_optimizer(wq)}
+        out.klass.append("custom-optimizer")
     if case["seed"] % 4 == 0:
         # qtypes given by name, as the API documents
         out.klass.append("qtypes-by-name")
-        r = cut(quantize, model, weights=case["wq"], activations=None if aq is None else aq.name)
+        r = cut(quantize, model, weights=case["wq"], activations=None if aq is None else aq.name, **opt_kw)
     else:
-        r = cut(quantize, model, weights=wq, activations=aq)
+        r = cut(quantize, model, weights=wq, activations=aq, **opt_kw)
     if isinstance(r, Raised):
         return out.fail(f"quantize-raises:{r.type}", r.text)
+    if case["seed"] % 2:
+        model.eval()
+        out.klass.append("eval-mode")
     frozen = False
     did = []
     wk = "q8" if wq.bits == 8 else "qbits"
@@ -253,7 +261,7 @@ def _exec_history(case):
                 g2 = torch.Generator().manual_seed(case["seed"] + 1)
                 m2, _ = M.build_runnable(case["model"], g2)
                 m2 = m2.to(dtype)
-                quantize(m2, weights=wq, activations=aq)
+                quantize(m2, weights=wq, activations=aq, **opt_kw)
                 r = cut(m2.load_state_dict, sd)
                 if isinstance(r, Raised):
                     return out.fail(f"reload-raises:{r.type}/{wk}/{'frozen' if frozen else 'unfrozen'}", r.text)
